@@ -36,6 +36,8 @@ def b (x : String) : Bool := x == "1"
 
 def step' (line : String) : String :=
   match line.splitOn "|" with
+  | ["D", chunks] => encChars (utf8.decodeIncremental ((splitNE chunks ",").map decChunk))
+  | ["W", chunks] => encChars (utf8.decodeWhole ((splitNE chunks ",").map decChunk).flatten)
   | [flags, outc, errc, ins, sched] =>
     match flags.splitOn "," with
     | [hi, ht, w, p, eo, tty, ho, sf, rs] =>
